@@ -78,6 +78,7 @@ func main() {
 
 		<-sigchan
 
+		lockSrv.PrepareShutdown()
 		netCloser()
 		lockSrvCloser()
 	}
